@@ -15,11 +15,13 @@ fn main() {
         "C03" => run_check(c03::C03, &args),
         "C04" => run_check(c04::C04, &args),
         "C05" => run_check(c05::C05, &args),
+        "C06" => run_check(c06::C06, &args),
         "C12" => run_check(c12::C12, &args),
         "C13" => run_check(c13::C13, &args),
         "C14" => run_check(c14::C14, &args),
         "C15" => run_check(c15::C15, &args),
         "C16" => run_check(c16::C16, &args),
+        "C19" => run_check(c19::C19, &args),
         "C20" => run_check(c20::C20, &args),
         other => {
             eprintln!("unknown property {}", other);
